@@ -262,7 +262,7 @@ def work_union(job):
     return desc, 'killed' if hits else 'survived', hits
 
 
-def main_union(props, only, out):
+def main_union(props, only, out, force=()):
     """Every mutant of a function anchored by ANY property is evaluated
     against every property that anchors a function of the same module."""
     t0 = time.time()
@@ -280,6 +280,12 @@ def main_union(props, only, out):
                 by_mod[prog.funcs[q].module].add(p)
                 allq.add(q)
     jobs = []
+    for q in force:
+        # functions no rule is anchored in: evaluated against every property
+        hit = [x for x in prog.funcs if x == q or x.endswith('.' + q)]
+        for x in hit:
+            allq.add(x)
+            by_mod[prog.funcs[x].module] |= set(props)
     for q in sorted(allq):
         if only and not any(o in q for o in only):
             continue
@@ -324,7 +330,11 @@ def main():
     if '--match' in args:
         only = args[args.index('--match') + 1].split(',')
     if '--union' in args:
-        return main_union(props, only, out)
+        force = ()
+        if '--force' in args:
+            force = args[args.index('--force') + 1].split(',')
+            only = (only or []) + list(force)
+        return main_union(props, only, out, force)
     t0 = time.time()
     jobs = []
     with multiprocessing.Pool(16) as pool:
